@@ -694,6 +694,32 @@ def d_get(ex, st, self, args, kwargs, n):
     return Unknown('dict.get with symbolic key')
 
 
+@L.method('dict', 'setdefault')
+def d_setdefault(ex, st, self, args, kwargs, n):
+    key = args[0]
+    default = args[1] if len(args) > 1 else None
+    c, k = const_of(key)
+    o = st.heap[self.oid]
+    if not (c and isinstance(k, (str, int))):
+        L.on_mutate(ex, st, self, 'dict.setdefault', n)
+        o.f['open'] = True
+        return Unknown('setdefault')
+    has = ex.dict_has(st, self, k)
+    d = has if isinstance(has, bool) else ex.decide(st, has)
+    if d is None:
+        raise NeedFork(has)
+    if d:
+        return o.f['items'][k]
+    L.on_mutate(ex, st, self, "dict.setdefault('%s', ...) on a dictionary "
+                "without that key" % k, n)
+    o.f['items'] = dict(o.f['items'])
+    o.f['items'][k] = default
+    if k in o.f.get('present', {}):
+        o.f['present'] = dict(o.f['present'])
+        del o.f['present'][k]
+    return default
+
+
 @L.method('dict', 'keys')
 def d_keys(ex, st, self, args, kwargs, n):
     o = st.heap[self.oid]
